@@ -36,8 +36,8 @@ func init() {
 	propTable["C02"].KeyFilter["STICKYFLAG"] = keyHas("FilterOptimizer")
 	propTable["C02"].KeyFilter["NOROWDROP"] = keyHas("ScanPlan", "MultiGetPlan")
 
-	prop("C03", []string{"NOROWDROP", "CONSUMED", "FETCHLOOPEND", "CACHECOPY", "ADJUSTCALL", "ARITY", "LISTCOVER", "BODYKIND", "ASTIMMUT", "DISPATCH", "TWINPRIM", "LIMITGATE", "ERRPROP", "EVALBOTH", "FRESHROWS", "ROWINDEX", "ROWCARRY"},
-		"Structural necessary conditions of C03 (agreement of the row and batch twins): DISPATCH/TWINPRIM (both modes route every operator to corresponding helpers reaching the same primitives with the same literals), BODYKIND (row and vector bodies box the same kinds), ARITY (both modes apply both arity tests), LISTCOVER (both modes handle the same list representations), NOROWDROP/CONSUMED/LIMITGATE/FETCHLOOPEND (batch loops neither drop consumed rows, nor emit skipped ones, nor bypass the limit, nor spin), CACHECOPY/ADJUSTCALL/ASTIMMUT (the chunk cache and the tree are not corrupted by in-place vector operators), ERRPROP on both twins of every plan. EVALBOTH (no batch-only short circuit), ROWINDEX/ROWCARRY (no batch-only reuse of row 0 or of an earlier row's operand), FRESHROWS (batch results never alias plan-owned buffers that the next call rewrites).",
+	prop("C03", []string{"NOROWDROP", "CONSUMED", "FETCHLOOPEND", "CACHECOPY", "ADJUSTCALL", "ARITY", "LISTCOVER", "BODYKIND", "ASTIMMUT", "DISPATCH", "TWINPRIM", "LIMITGATE", "ERRPROP", "EVALBOTH", "FRESHROWS", "ROWINDEX", "ROWCARRY", "ADJUSTCOVER"},
+		"Structural necessary conditions of C03 (agreement of the row and batch twins): DISPATCH/TWINPRIM (both modes route every operator to corresponding helpers reaching the same primitives with the same literals), BODYKIND (row and vector bodies box the same kinds), ARITY (both modes apply both arity tests), LISTCOVER (both modes handle the same list representations), NOROWDROP/CONSUMED/LIMITGATE/FETCHLOOPEND (batch loops neither drop consumed rows, nor emit skipped ones, nor bypass the limit, nor spin), CACHECOPY/ADJUSTCALL/ASTIMMUT (the chunk cache and the tree are not corrupted by in-place vector operators), ERRPROP on both twins of every plan. EVALBOTH (no batch-only short circuit), ROWINDEX/ROWCARRY (no batch-only reuse of row 0 or of an earlier row's operand), FRESHROWS (batch results never alias plan-owned buffers that the next call rewrites). ADJUSTCOVER (no by-position cache entry of the unfiltered chunk survives filtering).",
 		"Equality of computed values and the refill arithmetic beyond these clauses need execution.")
 
 	prop("C04", []string{"FOLDKIND", "FOLDERR", "REORDERGUARD", "FOLDFLAGS", "BODYKIND", "STICKYFLAG"},
@@ -46,13 +46,13 @@ func init() {
 
 	propTable["C04"].KeyFilter["STICKYFLAG"] = keyHas("ExpressionOptimizer")
 
-	prop("C05", []string{"ADJUSTCALL", "CACHECOPY", "ROWCACHE", "CHUNKKEY", "LOCKSTEP", "LISTCOVER", "ASTIMMUT", "FRESHROWS"},
-		"Structural necessary conditions of C05: ROWCACHE (no per-row cache entry written for one row can be read for another: every loop feeding different rows to an evaluator through one context clears it per row or passes no context), ADJUSTCALL (the chunk cache is re-indexed by exactly the rows that passed, with a cumulative index), CACHECOPY (cache entries never alias evaluation results), CHUNKKEY (chunk cache keys frame alias name and first key), LOCKSTEP (one column per announced name), LISTCOVER(project) (row-mode projection lets through every column kind). FRESHROWS (returned rows own their storage).",
+	prop("C05", []string{"ADJUSTCALL", "CACHECOPY", "ROWCACHE", "CHUNKKEY", "LOCKSTEP", "LISTCOVER", "ASTIMMUT", "FRESHROWS", "ADJUSTCOVER"},
+		"Structural necessary conditions of C05: ROWCACHE (no per-row cache entry written for one row can be read for another: every loop feeding different rows to an evaluator through one context clears it per row or passes no context), ADJUSTCALL (the chunk cache is re-indexed by exactly the rows that passed, with a cumulative index), CACHECOPY (cache entries never alias evaluation results), CHUNKKEY (chunk cache keys frame alias name and first key), LOCKSTEP (one column per announced name), LISTCOVER(project) (row-mode projection lets through every column kind). FRESHROWS (returned rows own their storage). ADJUSTCOVER (every cache is emptied by Clear; every per-chunk cache is re-indexed or emptied when the chunk is filtered).",
 		"Equality with the alias-expanded query needs execution.")
 	propTable["C05"].KeyFilter["LISTCOVER"] = keyHas("|project|")
 
-	prop("C06", []string{"ASSERT", "ARITY", "DIVGUARD", "BODYKIND", "FETCHLOOPEND", "ADJUSTCALL", "USERIDX", "ERRPROP", "ERRALL", "EVALBOTH"},
-		"The panic and non-termination classes whose absence is visible in the shape of the code: ASSERT (no unchecked type assertion without a dominating test or a checked side condition), ARITY (no body is called with fewer arguments than it indexes), DIVGUARD (integer division guarded), USERIDX (slices/indexes driven by user numbers or error offsets are bounded against the sliced value's length and ordered), BODYKIND (the constant folder's assertions are safe), ADJUSTCALL (chunk cache indexes stay in range), FETCHLOOPEND (every fetch loop stops at end of stream), ERRPROP (storage errors are values). EVALBOTH (the chunk cache always holds the current chunk's alias values before the scan re-indexes it).",
+	prop("C06", []string{"ASSERT", "ARITY", "DIVGUARD", "BODYKIND", "FETCHLOOPEND", "ADJUSTCALL", "USERIDX", "ERRPROP", "ERRALL", "EVALBOTH", "ADJUSTCOVER"},
+		"The panic and non-termination classes whose absence is visible in the shape of the code: ASSERT (no unchecked type assertion without a dominating test or a checked side condition), ARITY (no body is called with fewer arguments than it indexes), DIVGUARD (integer division guarded), USERIDX (slices/indexes driven by user numbers or error offsets are bounded against the sliced value's length and ordered), BODYKIND (the constant folder's assertions are safe), ADJUSTCALL (chunk cache indexes stay in range), FETCHLOOPEND (every fetch loop stops at end of stream), ERRPROP (storage errors are values). EVALBOTH (the chunk cache always holds the current chunk's alias values before the scan re-indexes it). ADJUSTCOVER (a stale per-chunk entry is longer than the filtered chunk: index out of range in the projection).",
 		"General index bounds, nil dereference, alias cycles (stack exhaustion) and termination of other loops are runtime quantities (DESIGN.md §6).")
 
 	prop("C07", []string{"ASSERT", "CMPDIR", "ORDERELIDE", "ORDERDEFAULT", "DRAINALL", "MGETSORT", "NOROWDROP"},
